@@ -21,7 +21,7 @@ def _payload_slice3d(plot, l, lo, hi):
     cx, cy = [d for d in range(nd) if d != cn]
     K = k_values(idx[cx] >> l, idx[cy] >> l, pp.get("k_inf"))
     T = plotgen.coded_block(l, lo, hi, 1)[..., 0]
-    R = plotgen._payload_random(plot, l, lo, hi)        # one random column per field position
+    R = plotgen._payload_random(plot, l, lo, hi) * float(pp.get("amp", 1.0))       # one random column per field position
     if pp.get("r_specials"):
         # the random field holds a few +-inf, +-1e300 and denormal samples (an infinite sample next to a finite one must
         # give that infinity, not NaN).  Values within a factor ~1e5 of the largest double are not used: any formula
@@ -40,14 +40,17 @@ plotgen.PAYLOADS["slice3d"] = _payload_slice3d
 
 @st.composite
 def slice_specs(draw, tier="quick", min_levels=1, max_cells=4000):
-    spec = draw(plotgen.plot_specs(thin=True, ndims=3, min_levels=min_levels, max_levels=3, max_cells=max_cells, fields=list(FIELDS),
+    spec = draw(plotgen.plot_specs(thin=True, level_prefix=True, ndims=3, min_levels=min_levels, max_levels=3, max_cells=max_cells, fields=list(FIELDS),
                                    payload_kinds=("coded",)))
     m = spec["mesh"]
     m["nb0"] = [max(n, 2) if m["bf"] * n < 4 else n for n in m["nb0"]]       # >= 4 cells per direction
     cn = draw(st.integers(0, 2))
+    # amplitude of the affine and of the random field: ordinary, trace-species small (an absolute tolerance of 1e-8 would
+    # swallow them) or large
+    amp = [1.0, 1.0, 1e-10, 1e-14, 1e9, 1.0][draw(st.integers(0, 2 ** 16)) % 6]
     spec["payload"] = dict(kind="slice3d", cn=cn, seed=draw(st.integers(0, 999)),
-                           alpha=draw(st.sampled_from([3.0, -1.25, 0.0, 100.0])),
-                           beta=draw(st.sampled_from([2.0, -0.5, 10.0, 1.0])))
+                           alpha=draw(st.sampled_from([3.0, -1.25, 0.0, 100.0])) * amp,
+                           beta=draw(st.sampled_from([2.0, -0.5, 10.0, 1.0])) * amp, amp=amp)
     if draw(st.integers(0, 2 ** 16)) % 3 == 0:
         spec["payload"]["r_specials"] = draw(st.integers(1, 2 ** 16))
     if draw(st.integers(0, 2 ** 16)) % 4 == 0:
